@@ -156,6 +156,29 @@ def check_key(res, tr, label, material: RKey, jkey, params, viol, rng, thorough)
                 viol("reload:%s:wrong-password-accepted" % form, "encrypted export loads with password %r" % (bad,), form)
             if b"ENCRYPTED" not in blob and form == "pem-encrypted":
                 viol("persist:pem-encrypted:not-encrypted", "password ignored on export", form)
+    # an export is the caller's to scribble on: a later export (and the key) must not notice
+    for ename, kw in (("as_dict()", {}), ("as_dict(private=True)", {"private": True}), ("as_dict(private=False)", {"private": False})):
+        try:
+            first = jkey.as_dict(**kw)
+        except Exception:
+            continue
+        snapshot = copy.deepcopy(first)
+        kid_before = jkey.kid
+        for name in list(first):
+            if name != "kty":
+                del first[name]
+        first["kid"] = "scribbled"
+        first["use"] = "scribbled"
+        res.case(label, "export-scribble", ename)
+        res.fired("caller-mutates-exported-dict")
+        try:
+            second = jkey.as_dict(**kw)
+        except Exception as e:
+            second = {"<export failed>": "%s: %s" % (type(e).__name__, e)}
+        if second != snapshot or jkey.kid != kid_before:
+            viol("export:aliased-with-key-state", "%s after the caller changed the dict returned by an earlier %s gives %r (kid %r), before: %r (kid %r)" % (
+                ename, ename, {k: v for k, v in second.items() if snapshot.get(k) != v} or "members missing: %s" % sorted(set(snapshot) - set(second)),
+                jkey.kid, {k: v for k, v in snapshot.items() if second.get(k) != v}, kid_before), "export-scribble")
     # private export of a public-only key must be an error
     try:
         pub = S.reload(S.persist(jkey, "jwk-public"), "jwk-public", material.kty) if kind[0] != "oct" else None
